@@ -7,7 +7,7 @@
     is that characterisation for all tables and all drivers; it is exact when [partner_pos] is
     injective on the current indexes, and it shows what goes wrong when it is not (two current
     indexes with generated names similar to the same unnamed one: [w_group_*]). *)
-From Coq Require Import List NArith Bool Arith Lia.
+From Coq Require Import List NArith Bool Arith Lia Permutation.
 From Atlas Require Import Base.Bytes Diff.Schema Diff.DiffModel Diff.DiffSqlite Diff.DiffDialects Diff.DiffProofs.
 Import ListNotations.
 
@@ -114,6 +114,46 @@ Proof.
 Qed.
 
 End Unnamed.
+
+(** ** counting the pairs *)
+Section Count.
+Variable D : DiffDriver.
+Variables from to : table.
+
+Definition has_partner (c : index) : bool :=
+  match partner_pos D from to c with Some _ => true | None => false end.
+
+Lemma positions_length l :
+  length (positions D from to l) = length (filter has_partner l).
+Proof.
+  induction l as [|c l IH]; [reflexivity|]. rewrite positions_cons. cbn [filter]. unfold has_partner at 1.
+  destruct (partner_pos D from to c); simpl; rewrite IH; reflexivity.
+Qed.
+
+Lemma claimed_in k : claimed D from to k = true <-> In k (positions D from to (t_idx from)).
+Proof.
+  unfold claimed. rewrite existsb_exists. unfold positions. rewrite in_flat_map. split.
+  - intros [c [Hc E]]. exists c. split; [exact Hc|]. destruct (partner_pos D from to c) as [j|]; [|discriminate].
+    apply Nat.eqb_eq in E. subst. left; reflexivity.
+  - intros [c [Hc E]]. exists c. split; [exact Hc|]. destruct (partner_pos D from to c) as [j|]; [|contradiction].
+    destruct E as [->|[]]. apply Nat.eqb_refl.
+Qed.
+
+(** when no two current indexes share a partner, and partners are positions of the desired
+    list, as many desired indexes are exempt from AddIndex by a partner as current indexes have one *)
+Lemma pairing_count :
+  NoDup (positions D from to (t_idx from)) ->
+  (forall k, In k (positions D from to (t_idx from)) -> k < length (t_idx to)) ->
+  length (filter (claimed D from to) (seq 0 (length (t_idx to)))) = length (filter has_partner (t_idx from)).
+Proof.
+  intros ND B. rewrite <- positions_length. apply Permutation_length. apply NoDup_Permutation.
+  - apply NoDup_filter. apply seq_NoDup.
+  - exact ND.
+  - intros k. rewrite filter_In, in_seq, claimed_in. split.
+    + intros [_ H]. exact H.
+    + intros H. split; [|exact H]. specialize (B k H). lia.
+Qed.
+End Count.
 
 (** ** witnesses (MySQL names) *)
 Definition s_age : str := [97;103;101]%N.
